@@ -186,6 +186,7 @@ type Case struct {
 	Prog wprog.Program `json:"prog"`
 
 	reads, writes, scenarios int
+	flusherCalls             int
 	fileLen                  int
 }
 
@@ -294,36 +295,60 @@ func checkCase(c *Case) error {
 	}
 
 	// ---- writer side ----
-	mkSink := func(fail func(call int, kind string) error) io.Writer {
+	// Three kinds of sink: the program's own (seekable or plain io.Writer,
+	// both wrapped in a bufio.Writer by the library) and, for small
+	// documents, a caller-buffered sink with a Flush method, which the Writer
+	// uses directly, so that every single Write of the library can fail.
+	type sinkKind struct {
+		name string
+		mk   func(fail func(call int, kind string) error) io.Writer
+	}
+	kinds := []sinkKind{{"program", func(fail func(call int, kind string) error) io.Writer {
 		if p.Seekable {
 			return &wprog.MemSeekable{Fail: fail}
 		}
 		s := &wprog.MemStream{}
 		s.SetFail(fail)
 		return s
+	}}}
+	if !p.Seekable {
+		kinds = append(kinds, sinkKind{"flusher", func(fail func(call int, kind string) error) io.Writer {
+			s := &wprog.MemFlusher{}
+			s.SetFail(fail)
+			return s
+		}})
 	}
-	calls := 0
-	count := mkSink(func(call int, kind string) error { calls = call; return nil })
-	if r := p.Run(count); r.WriterErr != nil {
-		return fmt.Errorf("fault-free write (counting sink) failed at %s: %v", r.ErrAt, r.WriterErr)
-	}
-	c.writes = calls
-	for k := 1; k <= calls; k++ {
-		for _, shape := range []string{"once", "from"} {
-			k, shape := k, shape
-			sink := mkSink(func(call int, kind string) error {
-				if call == k || (shape == "from" && call > k) {
-					return errInjected
-				}
-				return nil
-			})
-			r := p.Run(sink)
-			c.scenarios++
-			if r.WriterErr == nil {
-				return fmt.Errorf("write fault k=%d/%d shape=%s (seekable=%v): no Writer call up to Close reported the failure", k, calls, shape, p.Seekable)
+	for _, sk := range kinds {
+		calls := 0
+		count := sk.mk(func(call int, kind string) error { calls = call; return nil })
+		if r := p.Run(count); r.WriterErr != nil {
+			return fmt.Errorf("fault-free write (%s sink) failed at %s: %v", sk.name, r.ErrAt, r.WriterErr)
+		}
+		if sk.name == "program" {
+			c.writes = calls
+		} else {
+			c.flusherCalls = calls
+			if calls > 1500 {
+				continue // keep the enumeration bounded; counted as class
 			}
-			if !errors.Is(r.WriterErr, errInjected) {
-				return fmt.Errorf("write fault k=%d/%d shape=%s (seekable=%v): %s returned an error which does not carry the sink's error: %v", k, calls, shape, p.Seekable, r.ErrAt, r.WriterErr)
+		}
+		for k := 1; k <= calls; k++ {
+			for _, shape := range []string{"once", "from"} {
+				k, shape := k, shape
+				sink := sk.mk(func(call int, kind string) error {
+					if call == k || (shape == "from" && call > k) {
+						return errInjected
+					}
+					return nil
+				})
+				r := p.Run(sink)
+				c.scenarios++
+				if r.WriterErr == nil {
+					return fmt.Errorf("write fault k=%d/%d shape=%s (%s sink, seekable=%v): no Writer call up to Close reported the failure", k, calls, shape, sk.name, p.Seekable)
+				}
+				if !errors.Is(r.WriterErr, errInjected) {
+					return fmt.Errorf("write fault k=%d/%d shape=%s (%s sink, seekable=%v): %s returned an error which does not carry the sink's error: %v", k, calls, shape, sk.name, p.Seekable, r.ErrAt, r.WriterErr)
+				}
 			}
 		}
 	}
@@ -342,6 +367,11 @@ var prop = &vt.Prop[Case]{
 	Classify: func(c *Case) (bool, []string) {
 		cls := c.Prog.Classes(nil)
 		nt := c.reads >= 8 && c.writes >= 1
+		if c.flusherCalls > 0 && c.flusherCalls <= 1500 {
+			cls = append(cls, "sink:caller-buffered-with-Flush")
+		} else if c.flusherCalls > 1500 {
+			cls = append(cls, "sink:flusher-skipped-too-many-calls")
+		}
 		return nt, cls
 	},
 	Render: func(c *Case) any {
